@@ -104,6 +104,20 @@ class BaseCtx:
     def obs(self, key, value):
         self.observations[key] = value
 
+    INT_RANGE = {'int8': (-128, 127), 'int16': (-32768, 32767), 'int32': (-2 ** 31, 2 ** 31 - 1),
+                 'uint8': (0, 255), 'uint16': (0, 65535), 'uint32': (0, 2 ** 32 - 1)}
+
+    def int_signal(self, names, dtype):
+        """1-D array of the machine-integer type ``dtype`` whose elements are the integer variables ``names``
+        (assumed inside the type's range); 'int' = the default int64."""
+        vals = [self.integer(n) for n in names]
+        if dtype in self.INT_RANGE:
+            lo, hi = self.INT_RANGE[dtype]
+            for v in vals:
+                self.assume(v >= lo)
+                self.assume(v <= hi)
+        return vals, self._int_array(vals, dtype)
+
     def tolist(self, a):
         """array / Series / list -> python list (both sides)."""
         if hasattr(a, 'tolist'):
@@ -140,6 +154,19 @@ class RealCtx(BaseCtx):
 
     def integer(self, name):
         return int(self._get(name))
+
+    def _int_array(self, vals, dtype):
+        return self.np.array(list(vals), dtype=dtype)
+
+    def lazy_signal(self, points, dtype=float):
+        """signal known only at ``points`` = [(position, value)]: here a real array, zero elsewhere."""
+        n = max(int(p) for p, _ in points) + 1
+        if n > 50_000_000:
+            raise AssumeViolated("witness positions too large to materialise")
+        sig = self.np.zeros(n, dtype=dtype)
+        for p, v in points:
+            sig[int(p)] = v
+        return sig
 
     def boolean(self, name):
         return bool(self._get(name))
@@ -238,6 +265,16 @@ class SymCtx(BaseCtx):
 
     def integer(self, name):
         return self.E.fresh_int(name)
+
+    def lazy_signal(self, points, dtype=float):
+        """signal known only at ``points`` = [(position, value)]; positions may be unbounded symbolic integers."""
+        return self.np.LazyArray(points, self.np._type_kind(dtype))
+
+    def _int_array(self, vals, dtype):
+        np = self.np
+        k = np._type_kind(dtype)
+        vals = list(vals)          # in range by assumption: stored without the wrap-around term
+        return np.ndarray(vals, list(range(len(vals))), (len(vals),), k)
 
     def boolean(self, name):
         return self.E.fresh_bool(name)
